@@ -33,3 +33,24 @@ STEP_OF = {"set_db_ts_max": "ts_max", "write_db_ruv": "ruv_del", "write_db_ruv_a
 
 def step_of(point):
     return STEP_OF.get(point, "names")
+
+
+_order = None
+
+
+def commit_order():
+    """Which commit order the tree under test has, read off the real code: `kv-txn order` commits one transaction with a
+    recording H3 pause handler. Returns (CommitOrder constant of KTxn, cfg suffix, labels)."""
+    global _order
+    if _order is None:
+        import json
+        rc, out, dt = lib.kverif("txn", ["order"], timeout=600)
+        labels = None
+        for l in out.splitlines():
+            if l.startswith("ORDER "):
+                labels = json.loads(l[6:])
+        if not labels or "w.sql_commit" not in labels or "w.cfg" not in labels:
+            lib.tool_error("could not read the commit order off the pause points (kv-txn order)")
+        sf = labels.index("w.sql_commit") < labels.index("w.cfg")
+        _order = ("storage_first", "_sf", labels) if sf else ("publish_first", "", labels)
+    return _order
